@@ -82,18 +82,19 @@ theorem put_ok {F : Oracle} {w w' : World} {n : Nat} {o : Obj} {u : Unit}
   split at h
   · cases h
   · split at h <;> cases h
-    rfl
+    all_goals rfl
 
 theorem get_store (F : Oracle) (w : World) (n : Nat) : (w.get F n).1.store = w.store := by
   unfold World.get
   split
   · rfl
-  · split
-    · split <;> rfl
-    all_goals rfl
+  · split <;> (try split) <;> rfl
 
+/-- a successful `get` returns the stored object, or — under a read-corruption fault — a body
+    that no parser accepts (`torn`) while the object at rest is untouched -/
 theorem get_ok {F : Oracle} {w w' : World} {n : Nat} {o : Obj}
-    (h : w.get F n = (w', .ok o)) : NMap.get w.store n = some o := by
+    (h : w.get F n = (w', .ok o)) :
+    NMap.get w.store n = some o ∨ (o = .torn ∧ ∃ o', NMap.get w.store n = some o') := by
   unfold World.get at h
   split at h
   · cases h
@@ -101,7 +102,12 @@ theorem get_ok {F : Oracle} {w w' : World} {n : Nat} {o : Obj}
     · split at h
       · rename_i o' hg
         cases h
-        exact hg
+        exact Or.inl hg
+      · cases h
+    · split at h
+      · rename_i o' hg
+        cases h
+        exact Or.inr ⟨rfl, o', hg⟩
       · cases h
     all_goals cases h
 
@@ -111,6 +117,10 @@ theorem get_notFound {F : Oracle} {w w' : World} {n : Nat}
   split at h
   · cases h
   · split at h
+    · split at h
+      · cases h
+      · rename_i hg
+        exact hg
     · split at h
       · cases h
       · rename_i hg
@@ -129,6 +139,11 @@ theorem rename_ok {F : Oracle} {w w' : World} {a b : Nat} {u : Unit}
         cases h
         exact ⟨o, hg, rfl⟩
       · cases h
+    · split at h
+      · rename_i o hg
+        cases h
+        exact ⟨o, hg, rfl⟩
+      · cases h
     all_goals cases h
 
 theorem rename_err {F : Oracle} {w w' : World} {a b : Nat} {e : Bool}
@@ -137,6 +152,9 @@ theorem rename_err {F : Oracle} {w w' : World} {a b : Nat} {e : Bool}
   split at h
   · cases h; rfl
   · split at h
+    · split at h
+      · cases h
+      · cases h; rfl
     · split at h
       · cases h
       · cases h; rfl
@@ -166,7 +184,9 @@ theorem loadOrCreate_some {F : Oracle} {w w1 : World} {rid : Nat} {m : Manifest}
   split at h
   · rename_i w' m' heq
     cases h
-    exact Or.inl (get_ok heq)
+    rcases get_ok heq with hg | ⟨ht, _⟩
+    · exact Or.inl hg
+    · cases ht
   · cases h
   · rename_i w' heq
     cases h
